@@ -43,6 +43,9 @@ def fmt(f: Form) -> str:
 
 
 def atom_of(text: str) -> Optional[str]:
+    import re as _re
+    if not _re.fullmatch(r"[A-Za-z_][\w.]*", text):
+        return None     # only a plain (dotted) name denotes a weight vector: `-w`, `(a + b)`, `w[k]` do not
     if text.endswith(".var_weights") or text == "var_weights":
         return "v"
     if text.endswith(".cons_weights") or text == "cons_weights":
@@ -80,6 +83,18 @@ class FormReader:
         a = atom_of(t)
         if a is not None:
             return {(a, ""): 1}
+        if isinstance(e, ast.Subscript) and isinstance(e.value, (ast.UnaryOp, ast.BinOp)):
+            # indexing distributes over the integer-linear structure: (-w)[k] = -(w[k]), (a + b)[k] = a[k] + b[k], (2*w)[k] = 2*(w[k])
+            v = e.value
+
+            def idx(x):
+                if isinstance(x, ast.Constant):
+                    return x
+                return ast.copy_location(ast.Subscript(value=x, slice=e.slice, ctx=ast.Load()), e)
+            if isinstance(v, ast.UnaryOp) and isinstance(v.op, (ast.USub, ast.UAdd)):
+                return self.form(ast.copy_location(ast.UnaryOp(op=v.op, operand=idx(v.operand)), e))
+            if isinstance(v, ast.BinOp) and isinstance(v.op, (ast.Add, ast.Sub, ast.Mult)):
+                return self.form(ast.copy_location(ast.BinOp(left=idx(v.left), op=v.op, right=idx(v.right)), e))
         if isinstance(e, ast.Subscript):
             a = atom_of(unparse(e.value))
             if a is not None:
